@@ -447,6 +447,84 @@ pub fn protected_case() -> BoxedStrategy<MsgCase> {
         .boxed()
 }
 
+// --- datagrams: a message followed by further bytes ---------------------------------------------------------
+
+/// how the same-length twin of the attribute behind the message is made (bytes that are NOT a
+/// well-formed attribute)
+#[derive(Clone, Debug, PartialEq, Eq, Hash, Serialize, Deserialize)]
+pub enum Twin {
+    /// the attribute's own bytes with this much added to its length field (it overruns the datagram)
+    Overrun(u16),
+    /// these bytes repeated to the attribute's size
+    Random(Vec<u8>),
+}
+
+/// One datagram = a complete reference-encoded message (its header length covers exactly its
+/// attributes) followed by bytes that are not part of it.
+#[derive(Clone, Debug, PartialEq, Eq, Hash, Serialize, Deserialize)]
+pub struct DatagramCase {
+    pub msg: RMsg,
+    /// a well-formed attribute of a type the message does not carry (XOR-ed with the message's id)
+    pub attr: RAttr,
+    pub twin: Twin,
+    /// other bytes behind the message (CRLF, a few bytes, zero words, random bytes, SIP text)
+    pub extra: Vec<u8>,
+    /// a second complete message behind the first one
+    pub second: RMsg,
+}
+
+/// simple attributes of many types: the fallback when every drawn candidate's type is in the message
+fn fallback_attrs() -> Vec<RAttr> {
+    vec![
+        RAttr::XorMappedAddress(RAddr::V4 { ip: [203, 0, 113, 99], port: 6666 }),
+        RAttr::MappedAddress(RAddr::V4 { ip: [203, 0, 113, 99], port: 6666 }),
+        RAttr::Software("behind".into()),
+        RAttr::Lifetime(600),
+        RAttr::Username("mallory".into()),
+        RAttr::ErrorCode { code: 401, reason: "Unauthorized".into() },
+        RAttr::DontFragment,
+    ]
+}
+
+pub fn datagram_case() -> BoxedStrategy<DatagramCase> {
+    let extra = prop_oneof![
+        2 => Just(b"\r\n".to_vec()),
+        1 => Just(b"\r\n\r\n".to_vec()),
+        2 => vec(any::<u8>(), 1..=3),
+        1 => Just(vec![0u8; 4]),
+        1 => Just(vec![0u8; 8]),
+        1 => (1usize..=3).prop_map(|n| vec![0u8; n]),
+        2 => vec(any::<u8>(), 4..=40),
+        1 => Just(b"OPTIONS sip:a@example.org SIP/2.0\r\nContent-Length: 0\r\n\r\n".to_vec()),
+    ];
+    let twin = prop_oneof![
+        1 => (1u16..=0x4000).prop_map(Twin::Overrun),
+        1 => Just(Twin::Overrun(0xfffc)),
+        2 => vec(any::<u8>(), 1..=8).prop_map(Twin::Random),
+    ];
+    // the address attributes are what a STUN client acts on: half of the candidates are addresses
+    let cand = prop_oneof![
+        1 => (0u8..2, addr_spec()).prop_map(|(k, s)| AttrSpec::Addr(k, s)),
+        1 => attr_spec(),
+    ];
+    (message(), any::<bool>(), vec(cand, 4), twin, extra, message())
+        .prop_map(|(mut msg, keep_integrity, cands, twin, extra, second)| {
+            // `get_attr` does not look behind MESSAGE-INTEGRITY(-SHA256): every other message goes without
+            if !keep_integrity {
+                msg.tail.retain(|t| matches!(t, RTail::Fingerprint));
+            }
+            let absent = |a: &RAttr| !msg.attrs.iter().any(|b| b.typ() == a.typ());
+            let attr = cands
+                .iter()
+                .map(|s| materialize_attr(s, &msg.tid))
+                .find(|a| absent(a))
+                .or_else(|| fallback_attrs().into_iter().find(|a| absent(a)))
+                .expect("a message carries at most 6 attribute types");
+            DatagramCase { msg, attr, twin, extra, second }
+        })
+        .boxed()
+}
+
 // --- parser inputs (no-panic) ------------------------------------------------------------------------------
 
 #[derive(Clone, Debug, PartialEq, Eq, Hash, Serialize, Deserialize)]
